@@ -52,6 +52,10 @@ func cmdRun(args []string) int {
 	mtimers := fs.Bool("manualtimers", false, "timers fire only through vrt.RunTimer")
 	prof := fs.String("cpuprofile", "", "write cpu profile")
 	fs.Parse(args)
+	if d := os.Getenv("GOSYM_DEV_REPO"); d != "" {
+		RepoDir = d
+		fmt.Fprintln(os.Stderr, "development run against", d)
+	}
 	if *prof != "" {
 		f, _ := os.Create(*prof)
 		pprof.StartCPUProfile(f)
